@@ -191,6 +191,17 @@ def run(ck):
         ck.ob('KEY-residue', mod.loc(fp), True, 'fix_ptm has no ad-hoc grouping by resid alone', key='KEY-residue|fix_ptm|resid-only')
     shared.truthy_zero(ck, [CM])
     shared.runs_every_molecule(ck, 'vermouth/processors/canonicalize_modifications.py', 'CanonicalizeModifications', 'MPT-every-molecule')
+    # every group of unexplained atoms reaches the decision "identified -> labelled / not identified -> removed with a warning": nothing returns before, nothing skips a group
+    fp_ = ck.index.mod(CM).func('fix_ptm')
+    gl_ = [l for l in fp_.body if isinstance(l, ast.For) and 'groupby' in u(l.iter)]
+    cm_ = ck.index.mod(CM)
+    early = [r for r in ast.walk(fp_) if isinstance(r, ast.Return) and cm_.enclosing_function(r) is fp_]
+    ok = len(gl_) == 1 and not early and unconditional_in(fp_, fp_.body, gl_[0]) and 'groupby(ptm_atoms' in u(gl_[0].iter)
+    if ok:
+        tries = [t for t in gl_[0].body if isinstance(t, ast.Try)]
+        ok = len(tries) == 1 and unconditional_in(fp_, gl_[0].body, tries[0]) and not any(isinstance(n, ast.Break) for n in ast.walk(gl_[0]))
+    ck.ob('MPT-groups', ck.index.mod(CM).loc(fp_), ok, 'fix_ptm has no early exit: every residue group with unexplained atoms is put to identify_ptms, whatever the force field defines',
+          key='MPT-groups|no-early-exit')
     from .c04 import unrecognised_rules
     unrecognised_rules(ck, 'PROV-unrecognised')
     ck.assume('the cover search itself (exactly one, induced, preference for larger modifications) is decided only in the structural parts listed')
